@@ -15,7 +15,10 @@ one() {
   git -C /repo worktree add -q --detach $wt HEAD || { echo "$id $prop worktree-failed"; return; }
   if git -C $wt apply /verif/seeded/$id/patch.diff 2>/dev/null; then
     target=$(python3 -c "import json;print(json.load(open('/verif/seeded/$id/meta.json')).get('target_check',''))")
-    if [ "$target" = "extra" ]; then
+    case "$target" in C[0-9][0-9]) prop=$target; target="";; esac      # reported by another property's check than the one aimed at
+    if [ "$target" = "none" ]; then
+      echo "$id $prop not-reported-by-design (see meta.json)"
+    elif [ "$target" = "extra" ]; then
       # outside the statement of its property: the growth checks are what reports it
       VERIF_WORKDIR=/verif/.work/audit/w_$id VERIF_EVIDENCE_DIR=/verif/.work/audit/e_$id IOOS_QC_TREE=$wt \
         ./vcheck extra > /verif/.work/audit/audit_$id.log 2>&1
